@@ -90,7 +90,8 @@ fn large_texts() -> Texts {
 pub struct TwoLits;
 const TL_TAILS: [&str; 6] = ["", ".Trim", ".B(11 + 11 + 11)", ".Format([aaaaaaaa, bbbbbbbb, cccccccc])", ".Contains(aaaaaaaa) or bbbbbbbb or cccccccc", ".Length div 2 mod 3 in [aaaaaaaa .. bbbbbbbb]"];
 const TL_JOINS: [(&str, &str, &str); 3] = [("x := ", " + ", ";"), ("f(", ", ", ");"), ("x := y + ", " + 'z' + ", ".Trim;")];
-const TL_BASES: [&str; 5] = ["                                        ", "", "\t", "            ", "  "];
+// (the last four are one column off the places where the formatter puts the literal at the two nesting levels)
+const TL_BASES: [&str; 9] = ["                                        ", "", "\t", "            ", "  ", "     ", "       ", "         ", "           "];
 const TL_BODIES: [&str; 3] = ["a", "a\n%b", "\n%a  "];
 impl TwoLits {
     fn build(idx: u64) -> String {
@@ -422,6 +423,27 @@ fn or_c13_words() -> TextOracle {
 fn or_c14(well_formed: bool) -> TextOracle {
     Box::new(move |x, _c, ctx| o::c14(x, &o::C14Opts { well_formed }, ctx))
 }
+/// lines for which the wrapper has no solution (its fall-back logs the whole line), filled with long runs of
+/// multi-byte characters at every byte phase: any byte-indexed cut of the logged text lands inside a character
+/// for one of the phases
+fn c04_fallback_texts() -> Vec<String> {
+    let mut out = vec![];
+    for ch in ["\u{e9}", "\u{65e5}", "\u{1f600}"] {
+        for shift in 0..ch.len() {
+            let run = format!("{}{}", "a".repeat(shift), ch.repeat(700));
+            for pad in [0usize, 100, 246] {
+                let p = "b".repeat(pad);
+                out.push(format!("x := [^{{{p}\n{run} }} M];"));
+                out.push(format!("x := [^{{ {p}{run}"));
+                out.push(format!("x := [^{{ c\n d }} M, '{p}{run}', {run}];"));
+                out.push(format!("procedure P;\ntype T = procedure of object {{{p}{run}\nd}};\nbegin\nend;"));
+                out.push(format!("begin\n  {run}{p} := [^{{ c\n d }} {run}];\nend."));
+            }
+        }
+    }
+    out
+}
+
 fn or_c04() -> TextOracle {
     Box::new(|x, c, ctx| {
         let out = ctx.fmt(c, x);
@@ -1354,6 +1376,8 @@ pub fn families(check: &str, tier: &str) -> Vec<Box<dyn Family>> {
                     tf("c04", large_texts(), &C_QUICK[..2], or_c04()),
                     tf("c04", TokenTails, &one, or_c04()),
                     tf("c04", LongTokens { max_len: 100 }, &one, or_c04()),
+                    tf("c04words", Words { max_len: 100, max_align: 40 }, &one, or_c04()),
+                    tf("c04fallback", Texts { name: "no-solution-lines-with-multi-byte-runs-at-every-byte-phase".into(), items: c04_fallback_texts() }, &C_QUICK[..2], or_c04()),
                     tf("c04passes", Skeletons { n: 6 }, &one, Box::new(|x, c, ctx| o::c04_passes(x, c, ctx))),
                     tf("c04cursors", soup(2, GAPS3, &["%", "begin % end"]), &one, or_c04_cursors()),
                     Box::new(ScalingFamily { sizes: vec![1, 2, 4, 8, 16, 32, 64], cfgs: vec![cfg::DEFAULT, C_QUICK[1]] }),
@@ -1369,6 +1393,10 @@ pub fn families(check: &str, tier: &str) -> Vec<Box<dyn Family>> {
                     tf("c04", soup(2, GAPS8, CONTEXTS), &C_QUICK[..3], or_c04()),
                     tf("c04", large_texts(), &C_QUICK, or_c04()),
                     tf("c04", Chars { n: 5 }, &one, or_c04()),
+                    tf("c04", TokenTails, &C_QUICK[..2], or_c04()),
+                    tf("c04", LongTokens { max_len: 300 }, &C_QUICK[..2], or_c04()),
+                    tf("c04words", Words { max_len: 200, max_align: 64 }, &one, or_c04()),
+                    tf("c04fallback", Texts { name: "no-solution-lines-with-multi-byte-runs-at-every-byte-phase".into(), items: c04_fallback_texts() }, &C_QUICK, or_c04()),
                     tf("c04passes", Skeletons { n: 8 }, &one, Box::new(|x, c, ctx| o::c04_passes(x, c, ctx))),
                     tf("c04cursors", soup(2, GAPS5, CONTEXTS), &C_QUICK[..2], or_c04_cursors()),
                     seed_texts("c04cursors", &all_seeds(), &C_QUICK[..2], |x, c, ctx| {
@@ -1484,6 +1512,22 @@ pub fn families(check: &str, tier: &str) -> Vec<Box<dyn Family>> {
                 }
             };
             let c15cfg = [C_QUICK[0], C_QUICK[1], C_QUICK[2]];
+            // single tokens longer than 64 KiB (every 16-bit offset inside a token overflows)
+            let long_tokens = || {
+                let words: String = (0..14000).map(|i| format!("w{i:03} ")).collect::<String>();
+                let words = words.trim_end().to_string();
+                Texts {
+                    name: "tokens-longer-than-64KiB".into(),
+                    items: vec![
+                        format!("a;\n// {words}\nb;\n"),
+                        format!("a; {{ {words} }}\nb;\n"),
+                        format!("x := '{}';\n", "s".repeat(70000)),
+                        format!("{{$R {words}}}\na;\n"),
+                        format!("a;\n{{ first line\n{words} }}\nb;\n"),
+                        format!("x := {};\n", "i".repeat(70000)),
+                    ],
+                }
+            };
             let lits = |max_lines: usize| {
                 let f = o3::C12Family { max_lines, cfgs: vec![cfg::DEFAULT], quotes: vec![3], positions: vec![0, 4, 5] };
                 let items: Vec<String> = (0..f.len()).map(|i| f.build(i).0).collect();
@@ -1498,6 +1542,7 @@ pub fn families(check: &str, tier: &str) -> Vec<Box<dyn Family>> {
                     tf("c15", lits(1), &c15cfg, small(false)),
                     tf("c15", Texts { name: "asm-bodies".into(), items: c07_asm_texts(false) }, &c15cfg[..2], small(false)),
                     tf("c15", TokenTails, &c15cfg[..2], small(false)),
+                    tf("c15", long_tokens(), &c15cfg[..1], Box::new(|x, c, ctx| o3::c15(x, c, &o3::C15Opts { singles: false, pairs: false }, ctx))),
                 ]
             } else {
                 vec![
@@ -1509,6 +1554,7 @@ pub fn families(check: &str, tier: &str) -> Vec<Box<dyn Family>> {
                     tf("c15", lits(2), &c15cfg, small(false)),
                     tf("c15", Texts { name: "asm-bodies".into(), items: c07_asm_texts(true) }, &c15cfg, small(false)),
                     tf("c15", TokenTails, &c15cfg, small(false)),
+                    tf("c15", long_tokens(), &c15cfg, Box::new(|x, c, ctx| o3::c15(x, c, &o3::C15Opts { singles: false, pairs: false }, ctx))),
                 ]
             }
         }
@@ -1556,6 +1602,17 @@ pub fn families(check: &str, tier: &str) -> Vec<Box<dyn Family>> {
                         c09_variants(&t[2], c, false, ctx);
                     })),
                     sf("c09", &all_seeds(), &others[..2], Box::new(|s, c, ctx| c09_variants(&s.text, c, false, ctx))),
+                    // mis-indented multi-line literals with something behind the closing quotes, at every width
+                    // of a range: whether the line is wrapped again after the literal moved must not depend on
+                    // line endings
+                    tf("c09lits", two_lits(), &others[..1], Box::new(|x, c, ctx| {
+                        for w in 20..=64u32 {
+                            if w > 20 {
+                                ctx.sub_eval();
+                            }
+                            c09_variants(x, &c.with(|k| k.wrap = w), false, ctx);
+                        }
+                    })),
                 ]
             } else {
                 vec![
@@ -1568,6 +1625,14 @@ pub fn families(check: &str, tier: &str) -> Vec<Box<dyn Family>> {
                         c09_variants(&t[2], c, false, ctx);
                     })),
                     sf("c09", &all_seeds(), &others, Box::new(|s, c, ctx| c09_variants(&s.text, c, true, ctx))),
+                    tf("c09lits", two_lits(), &others[..2], Box::new(|x, c, ctx| {
+                        for w in 16..=100u32 {
+                            if w > 16 {
+                                ctx.sub_eval();
+                            }
+                            c09_variants(x, &c.with(|k| k.wrap = w), true, ctx);
+                        }
+                    })),
                 ]
             }
         }
